@@ -2,6 +2,7 @@ package main
 
 import (
 	"fmt"
+	"go/token"
 	"go/types"
 	"strings"
 
@@ -218,4 +219,177 @@ func pathNotes(p Path) string {
 		}
 	}
 	return strings.Join(s, ", ")
+}
+
+// c06IsHTTP: the http matcher's look at the request line. isHttp is evaluated on byte strings: every proper prefix
+// of a request line (no line feed yet) asks for more, a complete request line is recognised with LF and with CR LF
+// endings, a complete first line that is not a request line is refused - and never before the line is complete.
+func c06IsHTTP(c *Ctx, r *Report, rule string) {
+	r.rule(rule, "http request line (evaluation of isHttp on byte strings): every prefix of a request line that has no line feed yet asks for more data (never a definite no), complete request lines with LF and CR LF endings match, complete other first lines do not", 20)
+	fnName := "modules/l4http.(MatchHTTP).isHttp"
+	fn := c.Fn(fnName)
+	if fn == nil {
+		r.bad(rule, fnName, "exists", "-", "function not found")
+		return
+	}
+	type tc struct {
+		name, data string
+		want       string // more / yes / no
+	}
+	line := "GET /foo/bar?aaa=1 HTTP/1.1\r\n"
+	var cases []tc
+	for _, k := range []int{0, 1, 5, 9, 10, 11, 16, 24, len(line) - 3, len(line) - 2, len(line) - 1} {
+		cases = append(cases, tc{fmt.Sprintf("request line cut after %d bytes", k), line[:k], "more"})
+	}
+	cases = append(cases,
+		tc{"complete request line, CR LF", line, "yes"},
+		tc{"complete request line, LF only", "GET /foo/bar?aaa=1 HTTP/1.1\n", "yes"},
+		tc{"request line and a header", line + "Host: example.com\r\n\r\n", "yes"},
+		tc{"shortest request line", "GET / HTTP/1.1\r\n", "yes"},
+		tc{"shortest request line, LF only", "GET / HTTP/1.1\n", "yes"},
+		tc{"HTTP/2 preface line", "PRI * HTTP/2.0\r\n", "yes"},
+		tc{"HTTP/1.0", "POST /x HTTP/1.0\r\n", "yes"},
+		tc{"ssh banner", "SSH-2.0-OpenSSH_8.9p1\r\n", "no"},
+		tc{"other text line", "hello there, this is not http\n", "no"},
+		tc{"lower-case protocol", "GET /foo/bar http/1.1\r\n", "no"},
+		tc{"protocol without its space", "GET /foo/barXHTTP/1.1\r\n", "no"},
+		tc{"8 KiB without a line feed", strings.Repeat("a", 8192), "more"},
+	)
+	for _, cs := range cases {
+		base := msgScenario(c, msgMatcher{fn: fnName}, msgCase{})
+		data := byteSliceSV(base.Heap, "data", []byte(cs.data))
+		base.Name = cs.name
+		base.Params = map[string]SV{"recv": {K: "struct", Desc: "m"}, "p0": data}
+		base.MaxVisit = 20
+		paths, err := evalPaths(fn, base)
+		if err != nil || len(paths) == 0 {
+			r.bad(rule, fnName, cs.name, c.pos(fn.Pos()), fmt.Sprintf("undecided: %v", err))
+			continue
+		}
+		var got []string
+		good := true
+		for _, p := range paths {
+			v := "undecided (" + p.Outcome + ")"
+			if p.Outcome == "return" && len(p.Ret) == 2 && p.Ret[0].Known && (p.Ret[0].B || p.Ret[1].Known) {
+				switch {
+				case p.Ret[0].B:
+					v = "more"
+				case p.Ret[1].B:
+					v = "yes"
+				default:
+					v = "no"
+				}
+			}
+			got = append(got, v)
+			if v != cs.want {
+				good = false
+			}
+		}
+		r.check(good, rule, fnName, cs.name, c.pos(fn.Pos()), cs.want, fmt.Sprintf("isHttp answers %v for %q, expected %s: a verdict before the first line is complete misroutes a request that arrives in pieces; a refusal of a complete request line loses it", dedup(got), abbreviate([]byte(cs.data)), cs.want))
+	}
+}
+
+// c06Memo: verdicts are functions of the bytes on the stream now. A matcher that keeps what it parsed in the
+// connection's variable table and reuses it in a later evaluation answers for bytes that may no longer be the ones
+// at the head of the stream (a handler between two evaluations consumed or unwrapped them; the table is shared
+// across Wrap). Variables that matcher-reachable code both sets and reads back are therefore limited to the
+// reviewed cases.
+var memoReviewed = map[string]string{
+	"http_request": "the parsed request is reused by later http matcher evaluations on the same connection; between them only matchers run or handlers that hand on the same request stream (documented design of the http matcher, see the TODO in its Match)",
+}
+
+func c06Memo(c *Ctx, r *Report, rule string) {
+	r.rule(rule, "no verdict from memory: a connection variable that matcher-reachable code sets (SetVar with a constant key) is read back (GetVar) in matcher-reachable code only in the reviewed cases; elsewhere a matcher decides on the bytes it reads in this evaluation", 1)
+	mreach := c.matcherReach()
+	keyOf := func(ci ssa.CallInstruction) (string, bool) {
+		if len(ci.Common().Args) < 2 {
+			return "", false
+		}
+		return constString(ci.Common().Args[1])
+	}
+	set := map[string]string{}
+	for _, fn := range sortedFuncs(mreach) {
+		for _, ci := range callsIn(fn) {
+			if calleeID(ci) == "layer4.(*Connection).SetVar" {
+				if k, ok := keyOf(ci); ok {
+					set[k] = fname(fn)
+				}
+			}
+		}
+	}
+	n := 0
+	for _, fn := range sortedFuncs(mreach) {
+		for _, ci := range callsIn(fn) {
+			if calleeID(ci) != "layer4.(*Connection).GetVar" {
+				continue
+			}
+			k, ok := keyOf(ci)
+			if !ok {
+				continue
+			}
+			setter, isSet := set[k]
+			if !isSet {
+				continue // set by handlers only (tls connection states ...): facts about the connection, not a matcher's memory
+			}
+			if call, isCall := ci.(*ssa.Call); isCall && onlyAccumulated(call, k) {
+				continue // read only to be extended and stored back (a log of what was seen), never looked at
+			}
+			n++
+			why, reviewed := memoReviewed[k]
+			r.check(reviewed, rule, fname(fn), "variable "+k, c.ipos(ci), "reviewed: "+why, "the matcher reads back the connection variable \""+k+"\" that matcher code ("+setter+") stored in an earlier evaluation: its verdict is then about bytes seen earlier, not about the stream as it is now (after a handler consumed or unwrapped them the answer is stale)")
+		}
+	}
+}
+
+// onlyAccumulated: the value read from the variable table flows nowhere but - possibly extended by append - back
+// into SetVar under the same key (and into nil tests that guard that).
+func onlyAccumulated(v *ssa.Call, key string) bool {
+	seen := map[ssa.Value]bool{}
+	var walk func(x ssa.Value) bool
+	walk = func(x ssa.Value) bool {
+		if seen[x] || x.Referrers() == nil {
+			return true
+		}
+		seen[x] = true
+		for _, ref := range *x.Referrers() {
+			switch y := ref.(type) {
+			case *ssa.TypeAssert, *ssa.Extract, *ssa.Phi, *ssa.ChangeType, *ssa.ChangeInterface, *ssa.MakeInterface, *ssa.Slice:
+				if !walk(y.(ssa.Value)) {
+					return false
+				}
+			case *ssa.BinOp:
+				if y.Op != token.EQL && y.Op != token.NEQ {
+					return false
+				}
+			case *ssa.Store:
+				if al, ok := y.Addr.(*ssa.Alloc); ok {
+					for _, r2 := range *al.Referrers() {
+						if ld, ok := r2.(*ssa.UnOp); ok && !walk(ld) {
+							return false
+						}
+					}
+				} else {
+					return false
+				}
+			case *ssa.Call:
+				switch id := calleeID(y); {
+				case id == "builtin append" || id == "builtin len":
+					if !walk(y) {
+						return false
+					}
+				case id == "layer4.(*Connection).SetVar":
+					if k, ok := constString(y.Call.Args[1]); !ok || k != key {
+						return false
+					}
+				default:
+					return false
+				}
+			case *ssa.DebugRef, *ssa.If:
+			default:
+				return false
+			}
+		}
+		return true
+	}
+	return walk(v)
 }
